@@ -192,38 +192,46 @@ impl SetOperations {
         let num_ways = iterators.len();
         let mut result = Vec::new();
         
-        // Convert iterators to way iterators for the tournament tree
-        let mut tree = EnhancedLoserTree::new(crate::algorithms::LoserTreeConfig::default());
+        // Convert iterators to way iterators for the tournament tree. Every element is tagged
+        // with the way it comes from: how often a key is popped says nothing about how many
+        // ways contain it once a way holds the key more than once
+        let mut tree = EnhancedLoserTree::with_comparator(
+            crate::algorithms::LoserTreeConfig::default(),
+            |a: &(T, usize), b: &(T, usize)| a.0.cmp(&b.0),
+        );
         
-        for iterator in iterators {
-            tree.add_way(iterator)?;
+        for (way, iterator) in iterators.into_iter().enumerate() {
+            tree.add_way(iterator.map(move |value| (value, way)))?;
         }
         
         tree.initialize()?;
 
         // Process elements using the tournament tree
         let mut current_key: Option<T> = None;
-        let mut count = 0;
+        // Occurrences of the current key in each way
+        let mut occurrences = vec![0usize; num_ways];
+
+        // A key is in the intersection as often as every way has it (what the two-pointer
+        // algorithm and the bit mask variant produce): the smallest count over all ways
+        fn emit_key<T: Clone>(key: &T, occurrences: &mut [usize], result: &mut Vec<T>) {
+            let copies = occurrences.iter().copied().min().unwrap_or(0);
+            result.extend(std::iter::repeat(key).take(copies).cloned());
+            occurrences.fill(0);
+        }
 
         while !tree.is_empty() {
-            if let Some(value) = tree.pop()? {
+            if let Some((value, way)) = tree.pop()? {
                 match &current_key {
                     None => {
-                        current_key = Some(value.clone());
-                        count = 1;
+                        current_key = Some(value);
                     }
                     Some(key) => {
                         match value.cmp(key) {
-                            Ordering::Equal => {
-                                count += 1;
-                            }
+                            Ordering::Equal => {}
                             Ordering::Greater => {
-                                // Check if previous key appeared in all ways
-                                if count == num_ways {
-                                    result.push(key.clone());
-                                }
-                                current_key = Some(value.clone());
-                                count = 1;
+                                // Previous key is complete
+                                emit_key(key, &mut occurrences, &mut result);
+                                current_key = Some(value);
                             }
                             Ordering::Less => {
                                 return Err(ZiporaError::invalid_data("Input sequences not properly sorted"));
@@ -231,15 +239,14 @@ impl SetOperations {
                         }
                     }
                 }
+                occurrences[way] += 1;
                 self.stats.elements_examined += 1;
             }
         }
 
         // Check the last key
         if let Some(key) = current_key {
-            if count == num_ways {
-                result.push(key);
-            }
+            emit_key(&key, &mut occurrences, &mut result);
         }
 
         Ok(result)
